@@ -199,6 +199,8 @@ def mon_c02(h, obs):
                                         f"rejected receipt for {tx.id} is announced in the delivery set of block {b.h}", detail=b.raw))
         elif st[0] == "q" and st[1] == "ic" and st[3] != "none" and not st[3].startswith("bad"):
             svc = st[2]
+            if svc.count(":") == 2 and not svc.startswith("1356:"):
+                continue           # the record of a service on another BitXHub: those pairs are followed by the protocol monitors (C04 / C06) only
             m = parse_counter_map(st[3])
             for (f, t), lst in acc_req.items():
                 if not ORDERED.get(t, True):
